@@ -20,8 +20,13 @@ RULE = (
     "Cell.set_value, Row.set_value, Table.set_value, Table.set_values, VarSet, UserFieldDecl (+set_value), UserDefined, "
     "Meta.set_user_defined_metadata}. Oracle: read-back equal and of the corresponding type, directly, after "
     "Element.from_tag(serialize()), and after Document.save(BytesIO)+reload; the written attribute matches the ODF lexical "
-    "space of its type and an independent lxml reader decodes the same value. Non-trivial = value in a corner class; "
-    "distinct by (label, repr(value))."
+    "space of its type and an independent lxml reader decodes the same value. Second family 'rows': lists of 1-7 typed values "
+    "drawn so that neighbours are confusable (True/1/1.0/Decimal('1.00')/'1'/'true', False/0/-0.0/'', one instant in two zones, "
+    "date vs midnight datetime) stored through Row.set_values (start 0 and >0, over empty and pre-filled rows), "
+    "Table.set_values (with offset), set_row_values, set_column_values, append_row and Row(...)+set_cells; every position is "
+    "read back through get_values / get_value / get_cells, an independent lxml expansion of the serialisation, and after "
+    "save+reload. Non-trivial = value in a corner class (rows: some adjacent pair compares == across types); distinct by "
+    "(label, repr(value))."
 )
 ASSUMPTIONS = [
     "numeric read-back: int if integral else Decimal (documented); a float f equals a read value r iff float(r) == f",
@@ -256,9 +261,133 @@ def run_case(case, ctx):
             judge("UserDefined after save+reload", t3.body.get_element("descendant::text:user-defined").get_value())
 
 
+CONFUSABLE = [
+    [("bool", True), ("int", 1), ("float", 1.0), ("decimal", Decimal("1.00")), ("str", "1"), ("str", "true"), ("str", "True")],
+    [("bool", False), ("int", 0), ("float", 0.0), ("float", -0.0), ("decimal", Decimal("0.0")), ("str", ""), ("str", "0"), ("str", "false"), ("none", None)],
+    [("datetime", datetime(2024, 1, 31, 12, 0, tzinfo=timezone.utc)), ("datetime", datetime(2024, 1, 31, 13, 0, tzinfo=timezone(timedelta(hours=1)))),
+     ("datetime", datetime(2024, 1, 31, 12, 0)), ("str", "2024-01-31T12:00:00")],
+    [("date", date(2024, 1, 31)), ("datetime", datetime(2024, 1, 31)), ("str", "2024-01-31")],
+    [("timedelta", timedelta(hours=1)), ("timedelta", timedelta(seconds=3600)), ("str", "PT1H"), ("int", 3600)],
+    [("int", 2), ("decimal", Decimal("2.0")), ("float", 2.0), ("decimal", Decimal("2")), ("str", "2")],
+]
+
+
+def row_values():
+    fam = st.sampled_from(CONFUSABLE).flatmap(lambda f: st.lists(st.sampled_from(f), min_size=1, max_size=7))
+    mixed = st.lists(st.one_of(st.sampled_from([x for f in CONFUSABLE for x in f]), values()), min_size=1, max_size=7)
+    return st.one_of(fam, fam, mixed)
+
+
+def confusable_pair(cells):
+    for (k1, v1), (k2, v2) in zip(cells, cells[1:]):
+        try:
+            if (k1 != k2 or type(v1) is not type(v2) or repr(v1) != repr(v2)) and v1 == v2:
+                return True
+        except Exception:
+            pass
+    return False
+
+
+def run_rows(case, ctx):
+    """typed values stored side by side keep their own type and lexical form"""
+    from odfdo import Cell, Document, Element, Row, Table
+
+    cells = [tuple(c) for c in case["cells"]]
+    start = case.get("start", 0)
+    pre = case.get("pre", 0)
+    vals = [v for _k, v in cells]
+    if confusable_pair(cells):
+        ctx.nontrivial(("rows", repr(cells)))
+    ctx.count("rows:len=%d" % len(cells))
+
+    def judge_list(carrier, got, offset=0):
+        ctx.check(len(got) >= offset + len(cells), ("C06", carrier, "rows-width"), f"{carrier}: stored {vals!r} at {offset}, read back {got!r}", case)
+        for i, (k, v) in enumerate(cells):
+            g = got[offset + i]
+            ctx.check(equal(k, v, g), ("C06", carrier, "rows-read-back", k),
+                      f"{carrier}: stored {vals!r} at offset {offset}; position {i} ({v!r}, {k}) read back {g!r} ({type(g).__name__}); whole read {got!r}", case)
+
+    def indep(el, y, offset, carrier):
+        rows = odfread.expand_table(odfread.parse_fragment(el.serialize()))["rows"]
+        got = [c[0] for c in rows[y]]
+        for i, (k, v) in enumerate(cells):
+            if k in ("str",):
+                continue  # opaque without office:string-value is judged by the API reads
+            g = got[offset + i] if offset + i < len(got) else "<missing>"
+            ctx.check(g != "<missing>" and equal_indep(k, v, g), ("C06", carrier, "rows-independent", k),
+                      f"{carrier}: stored {vals!r}; independent reader sees {g!r} at position {i} for {v!r}", case)
+
+    with ctx.guard(("C06", "Row.set_values", "exception"), case):
+        r = Row(width=pre) if pre else Row()
+        if pre:
+            r.set_values(["p"] * pre)
+        r.set_values(vals, start=start)
+        judge_list("Row.set_values", r.get_values(), start)
+        judge_list("Row.set_values get_value", [r.get_value(x) for x in range(start + len(cells))], start)
+        judge_list("Row.set_values get_cells", [c.get_value() for c in r.get_cells()], start)
+        judge_list("Row.set_values traverse", [c.get_value() for c in r.traverse()], start)
+        r2 = Element.from_tag(r.serialize())
+        judge_list("Row.set_values reparsed", r2.get_values(), start)
+        ctx.check(r.width == max(pre, start + len(cells)), ("C06", "Row.set_values", "rows-width"), f"width {r.width} after storing {vals!r} at {start} over {pre}", case)
+    with ctx.guard(("C06", "Table.rows", "exception"), case):
+        t = Table("T")
+        t.set_values([vals, vals[::-1]], coord=(start, 1))
+        judge_list("Table.set_values rows", t.get_values()[1], start)
+        judge_list("Table.set_values rows get_row", t.get_row(1).get_values(), start)
+        t.set_row_values(4, vals)
+        judge_list("Table.set_row_values", t.get_row_values(4))
+        judge_list("Table.set_row_values get_value", [t.get_value((x, 4)) for x in range(len(cells))])
+        row = Row()
+        row.set_values(vals)
+        t.append_row(row)
+        judge_list("Table.append_row", t.get_values()[t.height - 1])
+        t.set_row_cells(6, [Cell(v) for v in vals])
+        judge_list("Table.set_row_cells", t.get_row_values(6))
+        indep(t, 4, 0, "Table.set_row_values")
+        indep(t, 1, start, "Table.set_values rows")
+        tc = Table("C", width=2, height=len(cells))
+        tc.set_column_values(1, vals)
+        judge_list("Table.set_column_values", tc.get_column_values(1))
+        t2 = Element.from_tag(t.serialize())
+        judge_list("Table rows reparsed", t2.get_row_values(4))
+        judge_list("Table rows reparsed offset", t2.get_values()[1], start)
+        if case.get("doc", True):
+            doc = Document("spreadsheet")
+            doc.body.clear()
+            doc.body.append(t)
+            buf = io.BytesIO()
+            doc.save(buf)
+            buf.seek(0)
+            t3 = Document(buf).body.get_table(0)
+            judge_list("Table rows after save+reload", t3.get_row_values(4))
+            judge_list("Table rows after save+reload offset", t3.get_values()[1], start)
+
+
+def equal_indep(kind, v, g):
+    """value decoded by lib.odfread from the written attributes"""
+    if kind == "none":
+        return g is None
+    if kind == "bool":
+        return type(g) is bool and g == v
+    if kind in ("int", "float", "decimal"):
+        if type(g) is bool or not isinstance(g, (int, float, Decimal)):
+            return False
+        return float(g) == v if kind == "float" else Decimal(str(g)) == v if isinstance(g, float) else g == v
+    if kind == "date":
+        return (g.date() if isinstance(g, datetime) else g) == v and (not isinstance(g, datetime) or g.time() == datetime.min.time())
+    if kind == "datetime":
+        return isinstance(g, datetime) and (g.tzinfo is None) == (v.tzinfo is None) and g == v
+    if kind == "timedelta":
+        return isinstance(g, timedelta) and g == v
+    return True
+
+
 def replay(case, ctx):
     try:
-        run_case(case, ctx)
+        if "cells" in case:
+            run_rows(case, ctx)
+        else:
+            run_case(case, ctx)
     except Abandon:
         pass
 
@@ -276,4 +405,18 @@ def run_shard(ctx):
                 pass
         return t
 
-    ctx.run_given(mk, ctx.budget(14000, 500000))
+    ctx.run_given(mk, ctx.budget(14000, 250000))
+
+    def mk_rows():
+        @given(row_values(), st.integers(0, 3), st.integers(0, 4), st.integers(0, 3))
+        def t(cells, start, pre, d):
+            ctx.ev()
+            case = {"cells": [list(c) for c in cells], "start": start, "pre": pre, "doc": d == 0}
+            try:
+                run_rows(case, ctx)
+                ctx.maybe_sample({"cells": [repr(c[1]) for c in cells], "start": start, "pre": pre}, 499)
+            except Abandon:
+                pass
+        return t
+
+    ctx.run_given(mk_rows, ctx.budget(8000, 150000))
